@@ -173,10 +173,36 @@ EXTRA_THEOREMS = {
             "theorems": ["C16_every_rendering_esc", "C16_esc_contains_plain", "C09_C16_string_decodes"]},
 }
 
+# translator phases: (tool, root module of its agreement theorems)
+TIE_PHASES = [("rs2lean.py", "TranslatedAgree"), ("rs2lean2.py", "TranslatedAgreeB"), ("rs2lean3.py", "TranslatedAgreeC"),
+              ("rs2lean4.py", "TranslatedAgreeD"), ("rs2lean5a.py", "TranslatedAgreeE")]
+
+# phase 5a (tools/rs2lean5a.py, Proofs/TranslatedAgreeE*.lean): the read-only accessors and casts
+_ACC = ["get_by_index_agrees", "get_by_name_agrees", "object_keys_agrees", "array_values_agrees", "object_each_agrees", "type_of_agrees",
+        "as_null_agrees", "as_bool_agrees", "as_number_agrees", "as_str_agrees", "get_by_keypath_agrees",
+        "exists_jsonb_key_lazy", "exists_jsonb_key_model", "exists_jsonb_key_cases", "exists_all_keys_agrees", "exists_all_keys_model",
+        "exists_any_keys_agrees", "exists_any_keys_model", "traverse_check_string_agrees"]
+_CASTS = ["as_i64_fn_agrees", "as_u64_fn_agrees", "as_f64_fn_agrees", "to_bool_agrees", "to_i64_agrees", "to_u64_agrees", "to_f64_agrees", "to_str_agrees",
+          "to_bool_jsonb", "to_i64_jsonb", "to_u64_jsonb"]
+_WHOLE = ["get_by_index_whole", "get_by_name_whole", "object_keys_whole", "array_values_whole", "object_each_whole", "type_of_whole", "as_null_whole", "as_bool_whole",
+          "as_number_whole", "as_str_whole", "get_by_keypath_whole", "traverse_check_string_whole", "exists_all_keys_whole", "exists_any_keys_whole"]
+for _p, _l in {"C05": _ACC + _CASTS, "C11": _WHOLE, "C18": _CASTS, "C07": ["get_by_index_agrees", "get_by_name_agrees", "get_by_keypath_agrees", "object_keys_agrees"],
+               "C20": ["get_by_keypath_agrees"]}.items():
+    TIE[_p] = TIE[_p] + [x for x in _l if x not in TIE[_p]]
+
+
+def tie_sources(name, functions):
+    """the source declarations an agreement theorem is about: the explicit table, or by its name"""
+    if name in TIE_SOURCES:
+        return TIE_SOURCES[name]
+    import re as _re
+    stem = _re.sub(r"_(fn_agrees|agrees_eq|agrees|whole|jsonb|lazy|model|cases|loop|drain|run|overflow)$", "", name)
+    return [k for k in functions if k.endswith("::" + stem)]
+
 TRUSTED_BASE = [
     "Lean 4.33.0 kernel (thorough tier re-checks the theorem module with leanchecker)",
     "axioms: only propext, Classical.choice, Quot.sound (audited per theorem by #print axioms on every run); no native_decide, no bv_decide, no user axioms, no sorry",
-    "tools/rs2lean.py + rs2lean2.py + rs2lean3.py + rs2lean4.py (translators of about 90 functions of /repo/src to Lean: number codec and order, entry words, index arithmetic, byte walkers, iterators, entry patching, escaper, the recursive Decoder of de.rs and Encoder of ser.rs, the builders of builder.rs and eleven byte-level editors / set functions of functions.rs; regenerated every run) with lean/JsonbModel/RustPrelude*.lean (hand-written meaning of the Rust primitives they emit: integer casts, checked arithmetic, byte conversions, slices, loops as bounded folds, recursion on explicit fuel, BTreeMap as a sorted list, from_utf8 as validUtf8, OrderedFloat); the agreement theorems tie their output to the model",
+    "tools/rs2lean.py + rs2lean2.py + rs2lean3.py + rs2lean4.py + rs2lean5a.py (translators of about 120 functions of /repo/src to Lean: number codec and order, entry words, index arithmetic, byte walkers, iterators, entry patching, escaper, the recursive Decoder of de.rs and Encoder of ser.rs, the builders of builder.rs and eleven byte-level editors / set functions and 31 read-only accessors and casts of functions.rs; regenerated every run) with lean/JsonbModel/RustPrelude*.lean (hand-written meaning of the Rust primitives they emit: integer casts, checked arithmetic, byte conversions, slices, loops as bounded folds, recursion on explicit fuel, BTreeMap as a sorted list, from_utf8 as validUtf8, OrderedFloat); the agreement theorems tie their output to the model",
     "tools/gen_constants.py (translator constants.rs -> Lean) and the line-protocol glue (lean/JsonbModel/Driver/*.lean, harness/src/wire.rs)",
     "the correspondence check itself: the hand-written implementation model is tied to /repo by sampled differential runs (request stream of this run, see coverage)",
     "modelled, not verified: Rust slice/Vec/integer-cast semantics, BTreeMap ordering, byteorder; the spec layer is my reading of the README and the property text",
